@@ -49,7 +49,7 @@ def _fns(F, mods, skip=()):
 def _closure_steps(F, f, b, depth=0):
     """adapter call blocks of `f` whose closure (transitively) calls a conversion step"""
     out = []
-    for cf, abb, an in od.closure_loops(F, f):
+    for cf, abb, an in od.closure_calls(F, f):
         cb = Body(cf)
         if any(STEP.search(callee_name(t) or "") for bi, t in cb.calls()) or (depth < 2 and _closure_steps(F, cf, cb, depth + 1)):
             out.append((abb, an, cf))
